@@ -544,3 +544,27 @@ example :
 
 end Nested
 end Charset
+
+namespace Charset
+open Nested
+
+/-- **T2 obligation for the nested model** — which memoised functions the body of each memoised function
+    can reach (through plain functions; extracted from the current source, same-named functions merged, so an
+    over-approximation) is the reviewed graph … -/
+theorem C12_cached_calls_covered : (Inv.cachedCalls == Covered.cachedCalls) = true := by decide +kernel
+
+/-- a ranking of the memoised functions under which every nested memoised call goes strictly down -/
+def cachedLevel (n : Name) : Nat :=
+  if n = nameOfStr "new_mess_detector_character" then 0 else 1
+
+def cachedCallsAcyclicB : Bool :=
+  Covered.cachedCalls.all (fun e => e.2.all (fun callee => decide (cachedLevel callee < cachedLevel e.1)))
+
+/-- … and that graph is acyclic: the text-level caches (`mess_ratio`, `coherence_ratio`, `encoding_languages`)
+    reach only the per-character cache, which reaches none.  This is what makes the recursion equations of
+    `Nested.Funs` (`val_eq`, `cost_eq`) solvable, i.e. the nested model's hypotheses satisfiable for the crate. -/
+theorem C12_cached_calls_acyclic : cachedCallsAcyclicB = true := by decide +kernel
+
+example : Covered.cachedCalls.length = 4 := by decide +kernel
+
+end Charset
